@@ -58,6 +58,20 @@ def theorem_check(ctx, cases, pid):
                                          "(hint-filtered submitted records): %d read, %d expected, first difference at record %d: read %s, expected %s"
                                          % (what, len(got), len(exp), k, (got[k] if k < len(got) else "<none>")[:160], (exp[k] if k < len(exp) else "<none>")[:160])))
                 break
+        # address events: total count per decoded key over all outputs
+        def agg(lines):
+            d = {}
+            for l in lines:
+                t = l.split(" ")
+                if len(t) < 4 or not t[-2].startswith("N"): return None
+                key = " ".join(t[:-2]); d[key] = d.get(key, 0) + int(t[-2][1:])
+            return d
+        got = agg([l[4:] for l in il if l.startswith("aec ")])
+        exp = agg([l[6:] for l in ml if l.startswith("#laec ")])
+        if got is None or exp is None or got != exp:
+            bad = None if (got is None or exp is None) else next((k for k in sorted(set(got) | set(exp)) if got.get(k) != exp.get(k)), None)
+            c["oracle"].append((pid, "the address-event totals read back from the outputs differ from the right-hand side of the end-to-end theorem (log_aec): "
+                                     "key %s: read %s, expected %s" % (bad, got.get(bad) if got and bad else got, exp.get(bad) if exp and bad else exp)))
     return {"histories": len(cases), "hypotheses_hold": hold, "not_admissible": notadm, "outside_format_ranges": nottyped}
 
 def finish(ctx, pid, cases, diffs, rule, related=()):
